@@ -9,6 +9,7 @@ schedules the others.  The interpreter is therefore written in direct style.
 from __future__ import annotations
 
 import ast
+import collections
 import builtins as _builtins
 import enum
 import sys
@@ -82,6 +83,23 @@ class ContinueSig(Exception):
     pass
 
 
+class SuspendSig(Exception):
+    """raised by an `await` (contract kwarg await_hook, or awaiting a PENDING coroutine) on something that is still
+    pending: the enclosing coroutine does not run any further in this activation (no `finally` runs, exactly like a
+    suspended CPython coroutine).  Caught where the coroutine function was *called* (bodies of `async def` are executed
+    eagerly at the call): the call then evaluates to PENDING."""
+
+
+class PendingCoroutine:
+    """value of a call of an `async def` whose body suspended at an await (see SuspendSig)"""
+
+    def __repr__(self):
+        return 'PENDING'
+
+
+PENDING = PendingCoroutine()
+
+
 # ---------------------------------------------------------------------------
 # small z3 helpers
 # ---------------------------------------------------------------------------
@@ -102,6 +120,8 @@ def zint(v):
         return z3.IntVal(1 if v else 0)
     if isinstance(v, int):
         return z3.IntVal(int(v))
+    if isinstance(v, Unknown):
+        raise Unsupported(f'integer value of an uninterpreted value needed as a term: {v!r}')  # undecided, not an engine failure
     raise EngineError(f'not an int: {v!r}')
 
 
@@ -115,6 +135,10 @@ def zbool(v):
         return z3.BoolVal(v)
     if isinstance(v, z3.BoolRef):
         return v
+    if isinstance(v, Unknown):
+        # an uninterpreted value (skeleton profile, `Any`, a comparison the value domain cannot decide) where a truth
+        # value is needed as a term: not a verdict and not an engine failure -- the obligation / entry is undecided
+        raise Unsupported(f'truth value of an uninterpreted value needed as a term: {v!r}')
     raise EngineError(f'not a bool: {v!r}')
 
 
@@ -123,6 +147,8 @@ def zbytes(v):
         return v.t
     if isinstance(v, (bytes, bytearray)):
         return bytes_lit(bytes(v))
+    if isinstance(v, Unknown):
+        raise Unsupported(f'bytes value of an uninterpreted value needed as a term: {v!r}')  # undecided, not an engine failure
     raise EngineError(f'not bytes: {v!r}')
 
 
@@ -195,6 +221,32 @@ def conc_bytes(t):
     except Exception:
         return None
     return None
+
+
+_HASQ = {}
+
+
+def has_quantifier(f):
+    """does the formula contain a quantifier (cached by term id; the terms are kept alive by the path conditions)"""
+    key = f.get_id()
+    hit = _HASQ.get(key)
+    if hit is not None and hit[1] is f:
+        return hit[0]
+    r = False
+    seen = set()
+    stack = [f]
+    while stack:
+        t = stack.pop()
+        i = t.get_id()
+        if i in seen:
+            continue
+        seen.add(i)
+        if z3.is_quantifier(t):
+            r = True
+            break
+        stack.extend(t.children())
+    _HASQ[key] = (r, f)
+    return r
 
 
 def zmin(a, b):
@@ -373,12 +425,16 @@ class Path:
                 return False
             if r == z3.sat and not self.explorer.precise_feasibility:
                 return True
+        t0 = _t.time()
+        quantified = [p for p in self.pc if has_quantifier(p)]
         s = z3.Solver()
         s.set('timeout', self.explorer.feas_timeout_ms)
         for p in self.pc:
-            s.add(p)
+            # quantified hypotheses make satisfiable queries run into the time limit (no model is found): inline
+            # queries are asked without them (a weakening: `unsat` is still conclusive, see _abstract)
+            if not quantified or not has_quantifier(p):
+                s.add(p)
         s.add(c)
-        t0 = _t.time()
         r = s.check()
         dt = _t.time() - t0
         if DEBUG and dt > 0.5:
@@ -390,7 +446,7 @@ class Path:
         self.pc.append(f)
         self.def_ids.add(id(f))
 
-    def proves(self, c):
+    def proves(self, c, timeout=1000):
         """does the path condition entail c (decided inline; False on unknown)"""
         c = z3.simplify(c)
         if z3.is_true(c):
@@ -410,9 +466,10 @@ class Path:
             r = True
         else:
             s = z3.Solver()
-            s.set('timeout', 1000)
+            s.set('timeout', timeout)
             for p in self.pc:
-                s.add(p)
+                if not has_quantifier(p):  # as in feasible(): entailment from fewer hypotheses is still entailment
+                    s.add(p)
             s.add(z3.Not(c))
             r = s.check() == z3.unsat
         cache[key] = r
@@ -426,8 +483,16 @@ class Path:
         o = lv.options[i]
         from . import contracts as _C
 
+        first_new = self.next_oid
         v = self.cfg.fresh(self, o, lv.hint) if isinstance(o, _C.T) else self.import_native(o)
         self.lazy[lv.lid] = v
+        # objects of a lazily chosen alternative belong to the pre-state: the counter-model of the path is concretised
+        # from prestate['heap'] (replay / CPython cross-check), which was copied before this alternative was chosen
+        pre = getattr(self, 'prestate', None)
+        if pre is not None:
+            for oid in range(first_new, self.next_oid):
+                if oid in self.heap and oid not in pre['heap']:
+                    pre['heap'][oid] = self.heap[oid].clone()
         return v
 
     def decide(self, conds, why=''):
@@ -528,6 +593,8 @@ class Path:
         if ref.old is not None:
             if isinstance(v, Ref) and v.old is None:
                 return Ref(v.oid, ref.old)
+            if isinstance(v, ElemRef) and v.mref.old is None:
+                return ElemRef(Ref(v.mref.oid, ref.old), v.key)
             if isinstance(v, tuple):
                 return tuple(self.wrap(x, ref) for x in v)
         return v
@@ -975,6 +1042,15 @@ class Path:
             n = 0
             while True:
                 c = self.truth(self.eval(s.test))
+                if not isinstance(c, bool) and not isinstance(c, Unknown):
+                    # a test that the path condition decides is as good as a concrete one (complete unrolling)
+                    ct = zbool(c)
+                    # (generous budget: an undecided test makes the whole entry undecided)
+                    p_true, p_false = self.proves(ct, 6000), self.proves(z3.Not(ct), 6000)
+                    if p_true and p_false:
+                        raise Infeasible()  # contradictory path condition (everything is entailed): not a path
+                    if p_true or p_false:
+                        c = p_true
                 if not isinstance(c, bool):
                     raise Unsupported(f'loop without invariant at {self.cur_loc}')
                 if not c:
@@ -1471,6 +1547,8 @@ class Path:
 
     def ev_Await(self, n):
         v = self.eval(n.value)
+        if v is PENDING:
+            raise SuspendSig()  # awaiting a coroutine that is itself suspended
         return self.cfg.await_value(self, v, n)
 
     def ev_Starred(self, n):
@@ -1707,6 +1785,13 @@ class Path:
                 self.exec_block(f.node.body)
             except ReturnSig as r:
                 return r.value
+            except SuspendSig:
+                # (func_stack[0] is the pseudo activation of the entry, func_stack[1] the entry itself)
+                if isinstance(f.node, ast.AsyncFunctionDef) and len(self.func_stack) > 2:
+                    return PENDING  # the rest of the body belongs to a later activation
+                if len(self.func_stack) > 2:
+                    raise
+                raise Unsupported('the coroutine under contract suspends at an await on a pending awaitable')
             return None
         finally:
             self.func_stack.pop()
@@ -1833,8 +1918,8 @@ class Path:
             raise Unsupported(f'truth of {v!r}: {e}')
 
     def length(self, v):
-        if isinstance(v, (bytes, bytearray, str, tuple, list, dict, frozenset, set, range)):
-            return len(v)
+        if isinstance(v, (bytes, bytearray, str, tuple, list, dict, frozenset, set, range, collections.deque)):
+            return len(v)  # (a reflected native container, e.g. a class-level default: concrete, like a native list)
         if isinstance(v, Sym):
             if v.k == 'bytes' or (isinstance(v.k, tuple) and v.k[0] == 'seq'):
                 return mk_int(z3.Length(v.t))
